@@ -40,6 +40,7 @@ BitWriteStreamT<NBitCapacity>::write(const UBitWidth<NBitWidth> item) noexcept {
 	static_assert(BIT_WIDTH > 0, "STATIC ASSERT");
 
 	FFSM2_ASSERT(_cursor + BIT_WIDTH <= BIT_CAPACITY);
+	FFSM2_VERIF_INDEX(_cursor + BIT_WIDTH, BIT_CAPACITY + 1);
 
 	using Item = UBitWidth<BIT_WIDTH>;
 
@@ -72,6 +73,7 @@ BitReadStreamT<NBitCapacity>::read() noexcept {
 	static_assert(BIT_WIDTH > 0, "STATIC ASSERT");
 
 	FFSM2_ASSERT(_cursor + BIT_WIDTH <= BIT_CAPACITY);
+	FFSM2_VERIF_INDEX(_cursor + BIT_WIDTH, BIT_CAPACITY + 1);
 
 	using Item = UBitWidth<BIT_WIDTH>;
 
